@@ -229,6 +229,55 @@ Fixpoint listN_eqb (a b : list N) : bool :=
   | _, _ => false
   end.
 
+(** ** definitions used in the statements about the router *)
+
+(** the plain statement of "covers": everything, or equality, or extension at a '/' *)
+Definition covers_prop (pre p : str) : Prop :=
+  pre = [] \/ p = pre \/ exists r, p = pre ++ 47 :: r.
+
+Definition all_entries (r : router) : list entry := r_map r ++ r_regs r ++ r_structs r.
+
+(** the answer as a function of the registration history: the latest exact
+    route for the path, else the first registry in registration order whose
+    prefix matches, else the first struct *)
+Definition spec_lookup (ops : list rop) (p : str) : answer :=
+  let mws := mws_of ops in
+  match last_route ops p with
+  | Some h => ARoute h mws
+  | None =>
+      match find (fun m => matches (fst m) p) (regs_of ops) with
+      | Some (pre, h) => AReg h mws (registry_pointer pre p)
+      | None =>
+          match find (fun m => matches (fst m) p) (structs_of ops) with
+          | Some (pre, h) =>
+              AStruct h mws (match struct_relative pre p with
+                             | Some rel => Some (struct_segments rel)
+                             | None => None
+                             end)
+          | None => ANone
+          end
+      end
+  end.
+
+Definition no_cover (l : list (str * N)) (p : str) : Prop := forall m, In m l -> ~ covers_prop (fst m) p.
+
+Fixpoint hids (ops : list rop) : list N :=
+  match ops with
+  | [] => []
+  | AddRoute _ h :: ops' => h :: hids ops'
+  | AddRegistry _ h :: ops' => h :: hids ops'
+  | AddStruct _ h :: ops' => h :: hids ops'
+  | AddMw _ :: ops' => hids ops'
+  end.
+
+Definition answered_by (a : answer) : option N :=
+  match a with
+  | ANone => None
+  | ARoute h _ => Some h
+  | AReg h _ _ => Some h
+  | AStruct h _ _ => Some h
+  end.
+
 (** the remaining path: the prefix stripped, nothing else *)
 Definition remaining (pre p : str) : str := skipn (length pre) p.
 
